@@ -12,6 +12,7 @@ from pycoin.key.Key import Key, InvalidSecretExponentError, InvalidPublicPairErr
 import pycoin.symbols as _symbols
 
 PROP = "C10"
+EXTRA_PROPS = ["C10compose"]   # composition theorems (see DESIGN.md section 0)
 DRIVER = "C10"
 RULE = ("correspondence: one driver line per call of the modelled function (sigencode_der, sigdecode_der, encode_integer, "
         "encode_length, read_length, remove_integer, remove_sequence, check_valid_signature-vs-BIP66 spec, to_bytes_32, "
